@@ -230,6 +230,14 @@ def gen_semantic_soup(rng):
         lambda: "X = %s + (%s(1) * -%s(2))" % (n, n, n),
         lambda: "IF (%s(1)) THEN PRINT %s ELSE %s = 1" % (n, n, n),
         lambda: "WHILE %s(1, 2) < 0\nWEND" % n,
+        # array parameters and arrays that cannot exist
+        lambda: "SUB SA (P%s())\nP%s(1) = 1\nEND SUB" % (rng.choice(["%", "$", "!"]), rng.choice(["%", "$", "!"])),
+        lambda: "SA %s" % rng.choice([n + "()", "(" + n + "())", "ARR()", "(ARR())", n, n + "(1)"]),
+        lambda: "DIM %s(%s) AS %s" % (n, rng.choice(["2", "1 TO 2"]), rng.choice(["STRING * 3", "STRING", "INTEGER", "Card"])),
+        lambda: "DIM %s(%s)" % (rng.choice([n, "BIG"]), rng.choice(["32767, 32767", "32767, 32767, 10", "-32768 TO 32767, 2000", "2000000000"])),
+        lambda: "REDIM %s(%s)" % (rng.choice([n, "BIG2"]), rng.choice(["32767, 32767", "30000, 30000"])),
+        lambda: "CONST %s.K%s = 1" % (n.replace(".", ""), rng.choice(SEM_SUFFIX)),
+        lambda: "%s.K%s = 2" % (n.replace(".", ""), rng.choice(SEM_SUFFIX)),
         lambda: "PRINT %s(%s)" % (rng.choice(["MID$", "LEFT$", "INSTR", "CHR$", "UBOUND", "VARPTR", "STR$", "VAL", "EOF", "STRING$"]), rng.choice(["", n, "1", '"a"', "1, 2", '"a", "b"', n + ", 1, 2, 3"])),
     ]
     for _ in range(rng.randrange(2, 9)):
